@@ -10,6 +10,9 @@
 //! front ends accept (tuple variant, newtype struct / variant around a sequence, `Some(sequence)`), and a few
 //! histories end with a value that is not a collection of records (refused by both front ends).  Errors are recorded
 //! together with the view of the public `Error` accessors (`outcome::run_sa`).
+//!
+//! A history does NOT end at a failing operation: a third of the histories hold a record the builder refuses half way
+//! (`bad_record`) in the middle, followed by more additions and builds; every outcome is recorded.
 use crate::dump;
 use crate::gen_schema::{self, ValCfg};
 use crate::outcome;
@@ -69,6 +72,29 @@ pub fn gen(ctx: &Ctx) -> Vec<Value> {
                 op["as"] = json!(*x.pick(&["newtype_struct", "some"]));
             }
         }
+        // USE AFTER A FAILED OPERATION (finding C10-use-after-failed-push): a third of the histories get one or two records
+        // that the builder refuses half way (wrong type, out-of-range integer, missing required field, unknown variant …)
+        // somewhere in the middle, as a push or inside a batch; the history goes on with more additions and builds
+        let mut y = Rng::new(sub ^ 0xFA11_ED00);
+        if y.chance(1, 3) {
+            for _ in 0..(1 + y.below(2)) {
+                let bad = bad_record(&mut y, &schema);
+                let pos = y.usize(ops.len());
+                if y.chance(1, 2) {
+                    ops.insert(pos, json!({"op": "push", "row": bad}));
+                } else {
+                    let m = y.usize(3);
+                    let mut rows: Vec<Value> = (0..m).map(|_| gen_schema::gen_record(&mut y, &schema, &ValCfg::strict())).collect();
+                    let at = y.usize(rows.len() + 1);
+                    rows.insert(at, bad);
+                    let op = *y.pick(&["extend", "ser", "ser_owned"]);
+                    ops.insert(pos, json!({"op": op, "as": *y.pick(&["seq", "tuple", "tuple_struct"]), "rows": rows}));
+                }
+            }
+            // … and something after it: good rows and a build
+            ops.push(json!({"op": "push", "row": gen_schema::gen_record(&mut y, &schema, &ValCfg::strict())}));
+            ops.push(json!({"op": "build"}));
+        }
         if x.chance(1, 12) {
             let op = *x.pick(&["ser", "ser_owned", "extend"]);
             // `extend` treats a unit / None as one null record (not generated here); `Serializer` refuses every scalar
@@ -95,8 +121,45 @@ pub fn gen(ctx: &Ctx) -> Vec<Value> {
     out
 }
 
-fn wrap(as_: &str, rows: &[Value]) -> Value {
+/// a record of the schema in which ONE position (preferably a late one, so that earlier columns have already taken
+/// their value when the builder refuses) holds something the column cannot represent, or a required field is absent
+pub fn bad_record(r: &mut Rng, schema: &[Value]) -> Value {
+    let cfg = ValCfg::strict();
+    let mut fs: Vec<(String, u64, Value)> =
+        schema.iter().map(|f| (f["name"].as_str().unwrap().to_string(), 0u64, gen_schema::gen_value(r, f, &cfg))).collect();
+    if fs.is_empty() {
+        return crate::sval::int("i32", 1);
+    }
+    let i = if r.chance(2, 3) { fs.len() - 1 } else { r.usize(fs.len()) };
+    match r.below(8) {
+        0 => {
+            fs.remove(i); // missing field (refused when it is not nullable)
+        }
+        1 => fs[i].2 = crate::sval::int("i64", i64::MAX as i128),
+        2 => fs[i].2 = crate::sval::unit_variant("E", 99, "NoSuchVariant"),
+        3 => fs[i].2 = crate::sval::none(),
+        _ => {
+            let off = gen_schema::offenders();
+            fs[i].2 = r.pick(&off).clone();
+        }
+    }
+    crate::sval::record("R", fs)
+}
+
+pub fn wrap(as_: &str, rows: &[Value]) -> Value {
     match as_ {
+        // a sequence that announces no length / a wrong length
+        "seq_nohint" => json!({"k": "seq", "hint": null, "v": rows}),
+        "seq_lying" => json!({"k": "seq", "hint": rows.len() + 3, "v": rows}),
+        "tuple_lying" => json!({"k": "tuple", "hint": rows.len() + 1, "v": rows}),
+        // newtype layers around a collection that is not a plain sequence
+        "nested" => json!({"k": "newtype_struct", "n": "Outer", "v": {"k": "newtype_variant", "n": "Batch", "i": 2, "vn": "Rows", "v": {"k": "tuple", "v": rows}}}),
+        "some_tuple" => json!({"k": "some", "v": {"k": "tuple", "v": rows}}),
+        "some_some" => json!({"k": "some", "v": {"k": "some", "v": {"k": "seq", "v": rows}}}),
+        "newtype_variant_tuple_variant" => json!({"k": "newtype_variant", "n": "Batch", "i": 0, "vn": "Rows", "v": {"k": "tuple_variant", "n": "Inner", "i": 1, "vn": "Rows", "v": rows}}),
+        // ONE record instead of a collection of records (a frequent mistake of callers)
+        "not:row" => rows.first().cloned().unwrap_or_else(|| json!({"k": "struct", "n": "Batch", "f": []})),
+        "not:map1" => json!({"k": "map", "e": [[{"k": "str", "v": "a"}, {"k": "i32", "v": 1}]]}),
         "tuple" => json!({"k": "tuple", "v": rows}),
         "tuple_struct" => json!({"k": "tuple_struct", "n": "Batch", "v": rows}),
         "tuple_variant" => json!({"k": "tuple_variant", "n": "Batch", "i": 1, "vn": "Rows", "v": rows}),
@@ -176,31 +239,34 @@ pub fn exec(input: &Value) -> Value {
     let made = outcome::run_sa(|| make().map(|_| Value::Null));
     if outcome::is_ok(&made) {
         let mut builder = make().unwrap();
+        // the rows of the additions that SUCCEEDED since the last successful build (a failed operation adds nothing to
+        // what a later build may return)
         let mut batch: Vec<Value> = Vec::new();
         for op in input["ops"].as_array().unwrap() {
             let kind = op["op"].as_str().unwrap();
+            let mut added: Vec<Value> = Vec::new();
             let res = match kind {
                 "push" => {
-                    batch.push(op["row"].clone());
+                    added.push(op["row"].clone());
                     outcome::run_sa(|| builder.push(&SVal(&op["row"])).map(|_| Value::Null))
                 }
                 "extend" => {
                     let rows = op["rows"].as_array().unwrap();
-                    batch.extend(rows.iter().cloned());
+                    added.extend(rows.iter().cloned());
                     let v = wrap(op["as"].as_str().unwrap(), rows);
                     outcome::run_sa(|| builder.extend(&SVal(&v)).map(|_| Value::Null))
                 }
                 "ser" => {
                     let rows = op["rows"].as_array().unwrap();
-                    batch.extend(rows.iter().cloned());
+                    added.extend(rows.iter().cloned());
                     let v = wrap(op["as"].as_str().unwrap(), rows);
                     outcome::run_sa(|| SVal(&v).serialize(serde_arrow::Serializer::new(&mut builder)).map(|_| Value::Null))
                 }
                 "ser_owned" => {
                     // the builder moves into the serializer and comes back through `into_inner` (on an error it is gone
-                    // with the serializer: the history ends there, on a fresh builder)
+                    // with the serializer: the history goes on with a FRESH builder, the rows added so far are lost)
                     let rows = op["rows"].as_array().unwrap();
-                    batch.extend(rows.iter().cloned());
+                    added.extend(rows.iter().cloned());
                     let v = wrap(op["as"].as_str().unwrap(), rows);
                     let owned = std::mem::replace(&mut builder, make().unwrap());
                     let mut back = None;
@@ -210,6 +276,8 @@ pub fn exec(input: &Value) -> Value {
                     });
                     if let Some(b) = back {
                         builder = b;
+                    } else {
+                        batch.clear();
                     }
                     r
                 }
@@ -224,21 +292,27 @@ pub fn exec(input: &Value) -> Value {
                 }
                 "build" => {
                     let r = outcome::run_sa(|| builder.to_marrow().map(|arrs| Value::Array(arrs.iter().map(dump::array_to_json).collect())));
-                    // metamorphic oracle: the one-shot conversion of exactly this batch
-                    let rows = std::mem::take(&mut batch);
-                    let v = json!({"k": "seq", "v": rows});
-                    oneshots.push(outcome::run(|| {
-                        serde_arrow::to_marrow(&fields, &SVal(&v)).map(|arrs| Value::Array(arrs.iter().map(dump::array_to_json).collect()))
-                    }));
+                    // metamorphic oracle: the one-shot conversion of exactly this batch (one entry per build operation;
+                    // null for a build that failed)
+                    if outcome::is_ok(&r) {
+                        let rows = std::mem::take(&mut batch);
+                        let v = json!({"k": "seq", "v": rows});
+                        oneshots.push(outcome::run(|| {
+                            serde_arrow::to_marrow(&fields, &SVal(&v)).map(|arrs| Value::Array(arrs.iter().map(dump::array_to_json).collect()))
+                        }));
+                    } else {
+                        oneshots.push(Value::Null);
+                    }
                     r
                 }
                 other => json!({"bad_op": other}),
             };
-            let failed = !outcome::is_ok(&res);
-            outs.push(res);
-            if failed {
-                break; // a failed operation leaves the builder in an unspecified state: histories end there
+            // a failed operation does NOT end the history: whatever is called afterwards must not panic, must not hand
+            // out malformed arrays and must not return rows nobody pushed successfully
+            if outcome::is_ok(&res) {
+                batch.extend(added);
             }
+            outs.push(res);
         }
     }
     let mut case = input.clone();
